@@ -165,178 +165,6 @@ def run_mpm(args, cwd, timeout=60):
 
 # ---------------------------------------------------------------- control flow (differential: no Coq source semantics yet)
 
-def gen_cf_prog(rnd):
-    """loops with init/post statements, if true/false, break, continue, ++/--; returns (source, writes predicted by Go semantics)"""
-    nv = rnd.randint(1, 3)
-    nouts = rnd.randint(1, 2)
-    rsize = rnd.choice([8, 16])
-    lines = []
-    py = []      # the same program as Python source over v[], with w.append((out, value)) for writes
-
-    def expr():
-        k = rnd.randrange(6)
-        a = rnd.randrange(nv)
-        if k < 2:
-            return "reg_v%d" % a, "v[%d]" % a
-        if k < 3:
-            c = rnd.choice([0, 1, 2, 5, 9])
-            return str(c), str(c)
-        b = rnd.randrange(nv)
-        if k < 5:
-            return "reg_v%d + reg_v%d" % (a, b), "(v[%d] + v[%d]) %% M" % (a, b)
-        c = rnd.choice([2, 3])
-        return "reg_v%d * %d" % (a, c), "(v[%d] * %d) %% M" % (a, c)
-
-    # user functions (inlined by the compiler): value parameters, a local, if/else on a constant, a return value
-    funcs = []      # (name, arity)
-    fsrc, fpy = [], []
-    for fi in range(rnd.choice([0, 1, 1, 2])):
-        ar = rnd.choice([1, 1, 2])
-        ps = ["reg_p%d" % j for j in range(ar)]
-
-        # expressions are built explicitly so that the Go text and the Python mirror cannot drift apart
-        def fe():
-            a_ = rnd.randrange(ar)
-            c = rnd.choice([1, 2, 7])
-            k_ = rnd.randrange(3)
-            if k_ == 0:
-                return "%s + %d" % (ps[a_], c), "(p[%d] + %d) %% M" % (a_, c)
-            if k_ == 1:
-                return "%s * %d" % (ps[a_], c), "(p[%d] * %d) %% M" % (a_, c)
-            b_ = rnd.randrange(ar)
-            return "%s + %s" % (ps[a_], ps[b_]), "(p[%d] + p[%d]) %% M" % (a_, b_)
-        name = "fn%d" % fi
-        fsrc.append("func %s(%s) %s {" % (name, ", ".join("%s %s" % (q, "uint%d" % rsize) for q in ps), "uint%d" % rsize))
-        fsrc.append("\tvar reg_r uint%d" % rsize)
-        fpy.append("def %s(*p):" % name)
-        shape = rnd.randrange(3)
-        g1, p1 = fe()
-        g2, p2 = fe()
-        if shape == 0:
-            fsrc.append("\treg_r = %s" % g1)
-            fpy.append("    r = %s" % p1)
-        else:
-            cond = rnd.random() < 0.5
-            fsrc += ["\tif %s {" % ("true" if cond else "false"), "\t\treg_r = %s" % g1, "\t} else {", "\t\treg_r = %s" % g2, "\t}"]
-            fpy += ["    if %s:" % ("True" if cond else "False"), "        r = %s" % p1, "    else:", "        r = %s" % p2]
-            if shape == 2:
-                g3, p3 = fe()
-                fsrc.append("\treg_r = reg_r + %s" % g3.split(" ")[0])
-                fpy.append("    r = (r + p[%d]) %% M" % ps.index(g3.split(" ")[0]))
-        fsrc += ["\treturn reg_r", "}", ""]
-        fpy.append("    return r")
-        funcs.append((name, ar))
-
-    def simple(ind, pind):
-        k = rnd.randrange(10)
-        if funcs and rnd.random() < 0.3:
-            name, ar = rnd.choice(funcs)
-            args = [expr() for _ in range(ar)]
-            a = rnd.randrange(nv)
-            lines.append(ind + "reg_v%d = %s(%s)" % (a, name, ", ".join(x[0] for x in args)))
-            py.append(pind + "v[%d] = %s(%s)" % (a, name, ", ".join(x[1] for x in args)))
-            return
-        if k < 5:
-            g, p = expr()
-            o = rnd.randrange(nouts)
-            lines.append(ind + "bondgo.IOWrite(out%d, %s)" % (o, g))
-            py.append(pind + "w.append((%d, %s))" % (o, p))
-        elif k < 7:
-            a = rnd.randrange(nv)
-            g, p = expr()
-            lines.append(ind + "reg_v%d = %s" % (a, g))
-            py.append(pind + "v[%d] = %s" % (a, p))
-        else:
-            a = rnd.randrange(nv)
-            if rnd.random() < 0.5:
-                lines.append(ind + "reg_v%d++" % a)
-                py.append(pind + "v[%d] = (v[%d] + 1) %% M" % (a, a))
-            else:
-                lines.append(ind + "reg_v%d--" % a)
-                py.append(pind + "v[%d] = (v[%d] - 1) %% M" % (a, a))
-
-    def loop(depth, ind, pind):
-        a = rnd.randrange(nv)
-        init = rnd.choice([0, 1, 3])
-        form = rnd.randrange(3)
-        if form == 0:
-            lines.append(ind + "for {")
-            py.append(pind + "while True:")
-            py.append(pind + "    tick()")
-            post = None
-        else:
-            inc = form == 1
-            lines.append(ind + "for reg_v%d = %d; ; reg_v%d%s {" % (a, init, a, "++" if inc else "--"))
-            py.append(pind + "v[%d] = %d" % (a, init))
-            py.append(pind + "first = True")
-            py.append(pind + "while True:")
-            py.append(pind + "    tick()")
-            # Go: the post statement runs before every iteration but the first, also after continue
-            py.append(pind + "    if not first: v[%d] = (v[%d] %s 1) %% M" % (a, a, "+" if inc else "-"))
-            py.append(pind + "    first = False")
-        if rnd.random() < 0.7:
-            o = rnd.randrange(nouts)
-            lines.append(ind + "\tbondgo.IOWrite(out%d, reg_v%d)" % (o, a))
-            py.append(pind + "    w.append((%d, v[%d]))" % (o, a))
-        n = rnd.randint(2, 5)
-        exits = False
-        for k in range(n):
-            c = rnd.randrange(10)
-            if c < 5:
-                simple(ind + "\t", pind + "    ")
-            elif c < 7:
-                cond = rnd.random() < 0.5
-                kind = rnd.choice(["continue", "continue", "continue", "break", "write", "write"])
-                lines.append(ind + "\tif %s {" % ("true" if cond else "false"))
-                py.append(pind + "    if %s:" % ("True" if cond else "False"))
-                simple(ind + "\t\t", pind + "        ")
-                if kind != "write":
-                    lines.append(ind + "\t\t" + kind)
-                    py.append(pind + "        " + kind)
-                if rnd.random() < 0.3:
-                    lines.append(ind + "\t} else {")
-                    py.append(pind + "    else:")
-                    simple(ind + "\t\t", pind + "        ")
-                lines.append(ind + "\t}")
-            elif depth < 1 and c < 8:
-                loop(depth + 1, ind + "\t", pind + "    ")
-            else:
-                simple(ind + "\t", pind + "    ")
-        lines.append(ind + "}")
-
-    for _ in range(rnd.randint(0, 2)):
-        simple("\t", "")
-    loop(0, "\t", "")
-    for _ in range(rnd.randint(0, 2)):
-        simple("\t", "")
-    ty = "uint%d" % rsize
-    head = ["package main", "", "import (", "\t\"bondgo\"", ")", ""] + fsrc + ["func main() {"]
-    head += ["\tvar out%d bondgo.Output" % o for o in range(nouts)] + ["\tvar reg_v%d %s" % (i, ty) for i in range(nv)]
-    head += ["\tout%d = bondgo.Make(bondgo.Output, %d)" % (o, o + 3) for o in range(nouts)]
-    # a program whose main returns has no defined continuation on the machine (the ROM beyond the program is not code, and the
-    # simulator treats a jump to the end address as a fall-through): every generated program ends in an idle loop
-    src = "\n".join(head + lines + ["\tfor {", "\t}", "}", ""])
-    # predicted writes
-    env = {"v": [0] * nv, "w": [], "M": 1 << rsize}
-    steps = [0]
-
-    class Stop(Exception):
-        pass
-
-    def tick():
-        steps[0] += 1
-        if steps[0] > 400 or len(env["w"]) > 60:
-            raise Stop()
-    env["tick"] = tick
-    code = "\n".join(fpy + py)
-    try:
-        # nested loops reuse the name 'first': give every loop its own by indentation depth
-        exec(compile(code, "<generated>", "exec"), env)
-    except Stop:
-        pass
-    return src, env["w"], rsize, nouts, code
-
-
 def goroutine_part(res, rnd, a, work):
     """goroutines without arguments: every goroutine becomes a processor of the machine the compiler requests; each source output
     must appear as one machine output carrying exactly the values written to it, and the machine must not vary between compiles"""
@@ -412,11 +240,18 @@ def goroutine_part(res, rnd, a, work):
 
 
 def control_flow_part(res, rnd, a, work):
+    import c12cf
     viol = []
-    n = 20 if a.tier == "quick" else 120
+    n = 30 if a.tier == "quick" else 160
     done = 0
-    for k in range(n):
-        src, want, rsize, nouts, code = gen_cf_prog(rnd)
+    asts = [c12cf.gen_cf_ast(rnd) for _ in range(n)]
+    # the reference meaning: Front/BondgoCF.v evaluated in Coq (at most 60 writes, fuel 2500)
+    body = ("From Coq Require Import List NArith Bool.\nFrom BM Require Import Front.BondgoCF.\nImport ListNotations.\n"
+            "Definition M := Eval vm_compute in %s.\n"
+            % C.cq_list(["\n map (fun w => [N.of_nat (fst w); snd w]) (%s)" % c12cf.render_coq(p_) for p_ in asts]))
+    wants = C.eval_cases("C12", "cf", body, timeout=1800)["M"]
+    for k, (ast_, want) in enumerate(zip(asts, wants)):
+        src, rsize, nouts = c12cf.render_go(ast_), ast_["rsize"], ast_["nouts"]
         meta = {"source": src}
         res.count_case({"src": src}, nontrivial=True)
         asm, log, st = run_bondgo(src, rsize, work)
@@ -501,7 +336,9 @@ def control_flow_part(res, rnd, a, work):
 
 
 def run(res, a):
-    failed = C.proof_part(res, "C12", trusted=[
+    failed = C.proof_part(res, "C12", extra_files=[os.path.join(C.COQ, "theories", "Properties", "C12cf.v")], trusted=[
+        "Front/BondgoCF.v: source-level meaning of the control-flow subset (hand-written, cross-checked against an independent interpreter "
+        "while it was written); it is the oracle of the control-flow comparison",
         "Front/BondgoProto.v (worker protocol LTS) and Front/Bondgo.v (code generation for the register-variable subset) are "
         "hand-written models; ties: the real cmd/bondgo binary (built with -tags verif) is run under forced delays before the "
         "allocator's notifications and under a deadline, and its assembly output is compared instruction by instruction with the "
